@@ -179,6 +179,8 @@ def gen_history(rng):
                 r = rng.random()
                 if r < 0.05:
                     gt = "./."
+                elif a == b and r < 0.15:
+                    gt = "0/1"                                # wrong call (changes under --distrust-genotypes)
                 elif r < 0.3:
                     gt = f"{max(a, b)}/{min(a, b)}"
                 else:
@@ -503,7 +505,7 @@ def run_histories(ctx, n):
 
 
 def run(ctx):
-    run_histories(ctx, ctx.n(100, 2500))
+    run_histories(ctx, ctx.n(80, 800))
 
 
 def replay(ctx, data):
